@@ -205,4 +205,151 @@ theorem diff_exact (s frm : Tree K V) (k : K) :
       · right; exact Classical.byContradiction fun hc => h2 (lookup_eq_none_iff.2 hc)
     · left; exact Classical.byContradiction fun hc => h1 (lookup_eq_none_iff.2 hc)
 
+/-! ## TraceHistory -/
+
+/-- the shape of one step of the walk -/
+theorem trace_succ (store : String → Option (Tree K V)) (after : Int) (k : K) (n : Nat)
+    (t : Tree K V) (c : Option Int) (e : Entry V) (hl : lookup k t = some e)
+    (h1 : atOrAbove c e.mod = false) (h2 : ¬ e.mod < after) :
+    trace store after k (n + 1) t c = (e.mod, e.val) ::
+      (if e.prev = "" then [] else match store e.prev with
+        | none => []
+        | some t' => trace store after k n t' (some e.mod)) := by
+  rw [trace]
+  simp only [hl, h1, h2, Bool.false_eq_true, if_false]
+  split <;> rfl
+
+theorem trace_stop (store : String → Option (Tree K V)) (after : Int) (k : K) (n : Nat)
+    (t : Tree K V) (c : Option Int)
+    (h : lookup k t = none ∨ ∃ e, lookup k t = some e ∧ (atOrAbove c e.mod = true ∨ e.mod < after)) :
+    trace store after k (n + 1) t c = [] := by
+  rw [trace]
+  rcases h with h | ⟨e, he, h | h⟩
+  · simp [h]
+  · simp [he, h]
+  · simp only [he]; split
+    · rfl
+    · simp
+
+/-- case analysis used by all four theorems -/
+theorem trace_cases (store : String → Option (Tree K V)) (after : Int) (k : K) (n : Nat)
+    (t : Tree K V) (c : Option Int) :
+    trace store after k (n + 1) t c = [] ∨
+    ∃ e, lookup k t = some e ∧ atOrAbove c e.mod = false ∧ ¬ e.mod < after ∧
+      trace store after k (n + 1) t c = (e.mod, e.val) ::
+        (if e.prev = "" then [] else match store e.prev with
+          | none => []
+          | some t' => trace store after k n t' (some e.mod)) := by
+  cases hl : lookup k t with
+  | none => exact Or.inl (trace_stop store after k n t c (Or.inl hl))
+  | some e =>
+    cases h1 : atOrAbove c e.mod with
+    | true => exact Or.inl (trace_stop store after k n t c (Or.inr ⟨e, hl, Or.inl h1⟩))
+    | false =>
+      by_cases h2 : e.mod < after
+      · exact Or.inl (trace_stop store after k n t c (Or.inr ⟨e, hl, Or.inr h2⟩))
+      · exact Or.inr ⟨e, rfl, h1, h2, trace_succ store after k n t c e hl h1 h2⟩
+
+/-- what the rest of the walk is, after the first report -/
+theorem mem_trace_tail (store : String → Option (Tree K V)) (after : Int) (k : K) (n : Nat)
+    (e : Entry V) (x : Int × Option V)
+    (hx : x ∈ (if e.prev = "" then [] else match store e.prev with
+        | none => []
+        | some t' => trace store after k n t' (some e.mod))) :
+    ∃ t', store e.prev = some t' ∧ x ∈ trace store after k n t' (some e.mod) := by
+  by_cases h3 : e.prev = ""
+  · simp [h3] at hx
+  · simp only [h3, if_false] at hx
+    cases hs : store e.prev with
+    | none => simp [hs] at hx
+    | some t' => simp only [hs] at hx; exact ⟨t', rfl, hx⟩
+
+/-- every time reported is below the cutoff the walk started with -/
+theorem trace_below_cutoff (store : String → Option (Tree K V)) (after : Int) (k : K) :
+    ∀ (fuel : Nat) (t : Tree K V) (c : Int) (x : Int × Option V),
+      x ∈ trace store after k fuel t (some c) → x.1 < c := by
+  intro fuel
+  induction fuel with
+  | zero => intro t c x hx; simp [trace] at hx
+  | succ n ih =>
+    intro t c x hx
+    rcases trace_cases store after k n t (some c) with h | ⟨e, _, h1, _, h⟩
+    · rw [h] at hx; simp at hx
+    · rw [h] at hx
+      have hlt : e.mod < c := by
+        simp only [atOrAbove, decide_eq_false_iff_not] at h1; omega
+      rcases List.mem_cons.1 hx with hx | hx
+      · rw [hx]; exact hlt
+      · obtain ⟨t', _, hx'⟩ := mem_trace_tail store after k n e x hx
+        have := ih t' e.mod x hx'
+        omega
+
+/-- **TraceHistory reports strictly decreasing times**, for every store of versions, every tree,
+    every key, every `after` and however many versions it walks through -/
+theorem trace_strictly_decreasing (store : String → Option (Tree K V)) (after : Int) (k : K) :
+    ∀ (fuel : Nat) (t : Tree K V) (c : Option Int),
+      (trace store after k fuel t c).Pairwise (fun a b => b.1 < a.1) := by
+  intro fuel
+  induction fuel with
+  | zero => intro t c; simp [trace]
+  | succ n ih =>
+    intro t c
+    rcases trace_cases store after k n t c with h | ⟨e, _, _, _, h⟩
+    · rw [h]; exact List.Pairwise.nil
+    · rw [h]
+      refine List.Pairwise.cons ?_ ?_
+      · intro x hx
+        obtain ⟨t', _, hx'⟩ := mem_trace_tail store after k n e x hx
+        exact trace_below_cutoff store after k n t' e.mod x hx'
+      · by_cases h3 : e.prev = ""
+        · simp [h3]
+        · simp only [h3, if_false]
+          cases hs : store e.prev with
+          | none => exact List.Pairwise.nil
+          | some t' => exact ih t' (some e.mod)
+
+/-- **it starts at the current value**: whatever is reported first is the handle's own entry -/
+theorem trace_starts_at_current (store : String → Option (Tree K V)) (after : Int) (k : K)
+    (fuel : Nat) (t : Tree K V) (x : Int × Option V) (rest : List (Int × Option V))
+    (h : trace store after k fuel t none = x :: rest) :
+    ∃ e, lookup k t = some e ∧ x = (e.mod, e.val) := by
+  cases fuel with
+  | zero => simp [trace] at h
+  | succ n =>
+    rcases trace_cases store after k n t none with h0 | ⟨e, hl, _, _, h1⟩
+    · rw [h0] at h; cases h
+    · rw [h1] at h
+      exact ⟨e, hl, (List.cons.inj h).1.symm⟩
+
+/-- **only committed values**: everything reported is the entry of `k` in the handle's own tree
+    or in a stored version -/
+theorem trace_reports_stored_entries (store : String → Option (Tree K V)) (after : Int) (k : K) :
+    ∀ (fuel : Nat) (t : Tree K V) (c : Option Int) (x : Int × Option V),
+      x ∈ trace store after k fuel t c →
+      (∃ e, lookup k t = some e ∧ x = (e.mod, e.val)) ∨
+      (∃ name t' e, store name = some t' ∧ lookup k t' = some e ∧ x = (e.mod, e.val)) := by
+  intro fuel
+  induction fuel with
+  | zero => intro t c x hx; simp [trace] at hx
+  | succ n ih =>
+    intro t c x hx
+    rcases trace_cases store after k n t c with h | ⟨e, hl, _, _, h⟩
+    · rw [h] at hx; simp at hx
+    · rw [h] at hx
+      rcases List.mem_cons.1 hx with hx | hx
+      · exact Or.inl ⟨e, hl, hx⟩
+      · obtain ⟨t', hs, hx'⟩ := mem_trace_tail store after k n e x hx
+        rcases ih t' (some e.mod) x hx' with ⟨e', he', hx''⟩ | h'
+        · exact Or.inr ⟨e.prev, t', e', hs, he', hx''⟩
+        · exact Or.inr h'
+
+/-- non-vacuity: a three-step history is reported newest first -/
+example :
+    let v1 : Tree String String := [("a", { mod := 1, val := some "x" })]
+    let v2 : Tree String String := [("a", { mod := 5, val := some "y", prev := "v1" })]
+    let cur : Tree String String := [("a", { mod := 9, val := some "z", prev := "v2" })]
+    trace (fun n => if n = "v1" then some v1 else if n = "v2" then some v2 else none) 0 "a" 10 cur none =
+      [(9, some "z"), (5, some "y"), (1, some "x")] := by
+  decide
+
 end S3db.Props.C17
